@@ -29,7 +29,8 @@ RULE = ("(systematic) for each index rule (name: +1 zero form; prefix: 'same' ze
         "sequences through every public serializer entry point of both integrations with name tables of 8..15, judged by the "
         "independent decoder against the sizes the stream declares (15 % with the caller's ONE options object first used for a serialization "
         "that aborted part-way); (splitter histories) two streams built from one options object fed alternately through "
-        "Stream.triple()/quad(), each file decoded on its own. Oracles on every transition: ids in [0,size]; live entries <= size; "
+        "Stream.triple()/quad(), each file decoded on its own; (reader histories) reference-producer streams through both integrations' "
+        "readers, two at a time with equal options, and through a minimal user-written Adapter (a refusal is fine, a delivered statement must be right). Oracles on every transition: ids in [0,size]; live entries <= size; "
         "string resolved by the real reader == string meant; same through an independent table; writer map and reader "
         "table mirror each other. Non-trivial = distinct canonical states in which the table is full (BFS) plus walk "
         "steps that evicted.")
@@ -651,6 +652,12 @@ def reader_history(ctx, rng):
                        options["max_prefix_table_size"], options["max_datatype_table_size"]], "mode": "reader",
                        "bytes": pr.data.hex(),
                        "summary": f"stream with {later_options} later frames opening with a repeated options row: " + w["summary"]})
+    if w is None and phys in (1, 2):
+        w2 = minimal_adapter_read(ctx, pr)
+        if w2 is not None:
+            ctx.violation({"clause": "reader-history:custom-adapter", "kind": "walk", "mode": "reader-custom-adapter",
+                           "sizes": [options["max_name_table_size"], options["max_prefix_table_size"], options["max_datatype_table_size"]],
+                           "bytes": pr.data.hex(), "summary": w2})
     if w is None:
         # a second stream with EXACTLY the same stream options but other content, read at the same time (two generators
         # advanced alternately): each reader's tables must mirror its own writer only
@@ -688,6 +695,53 @@ def reader_history(ctx, rng):
                                           + (err or "a reader resolved ids to strings of the other stream")})
     ctx.case(("reader", gen.case_hash(pr.data)), later_options > 0,
              sample={"kind": "reader-history", "frames": len(frames), "later_frames_opening_with_options": later_options})
+
+
+def minimal_adapter_read(ctx, pr):
+    """The same stream read through a USER-WRITTEN adapter that implements only the obligatory term methods plus triple() /
+    quad() (the documented extension point; no namespace_declaration, no quoted triples): the reader may refuse rows it has no
+    handler for, but every statement it does deliver must be the statement the writer meant at that position."""
+    import io as _io
+    from pyjelly.parse.decode import Adapter
+    from pyjelly.parse.ioutils import get_options_and_frames
+    from .. import terms as T
+
+    class MinimalAdapter(Adapter):
+        def iri(self, iri):
+            return ("iri", str(iri))
+
+        def bnode(self, bnode):
+            return ("bnode", str(bnode))
+
+        def default_graph(self):
+            return ("default",)
+
+        def literal(self, lex, language=None, datatype=None):
+            return ("lit", lex, language or None, datatype or None)
+
+        def triple(self, terms):
+            return ("stmt", tuple(terms))
+
+        def quad(self, terms):
+            return ("stmt", tuple(terms))
+
+    want = [e for e in T.norm_events(pr.events) if e[0] == "stmt"]
+    got = []
+    try:
+        opts, frames = get_options_and_frames(_io.BytesIO(pr.data))
+        dec = Decoder(adapter=MinimalAdapter(opts))
+        for fr in frames:
+            for item in dec.iter_rows(fr):
+                if isinstance(item, tuple) and item and item[0] == "stmt":
+                    got.append(T.norm_event(item))
+    except Exception as e:  # noqa: BLE001 - refusing a row it cannot handle is the adapter author's business
+        ctx.observe(f"custom-adapter-reader-refused:{type(e).__name__}")
+    ctx.observe("reader-histories-through-a-custom-minimal-adapter")
+    if got != want[:len(got)]:
+        i = next((k for k, (a, b) in enumerate(zip(got, want)) if a != b), len(want))
+        return (f"a reader built on a minimal user-written Adapter delivered {got[i] if i < len(got) else None} as statement {i}, the "
+                f"writer meant {want[i] if i < len(want) else 'nothing more'}")
+    return None
 
 
 def wire_frames(data: bytes):
